@@ -17,9 +17,49 @@ def run_job(args):
     return r
 
 
+def run_sniff(args):
+    base, k, hist = args
+    d = os.path.join(base, "sn%d" % k); os.makedirs(d)
+    jf = os.path.join(d, "job.json"); json.dump({"dir": os.path.join(d, "files"), "hist": hist}, open(jf, "w"))
+    p = subprocess.run(["/venv/bin/python", "-W", "ignore", WORKER, "--sniff", jf], env=dict(os.environ, PYTHONPATH=os.environ.get("VERIF_REPO", "/repo") + ":" + common.VERIF, PYTHONDONTWRITEBYTECODE="1"),
+                       capture_output=True, text=True, timeout=600)
+    if not os.path.exists(jf + ".out"): raise RuntimeError("sniff worker failed: " + p.stderr[-500:])
+    r = json.load(open(jf + ".out")); shutil.rmtree(d, ignore_errors=True)
+    return r
+
+
+def sniffing(c, rng):
+    """Sniffing.tla: the registry of compressors over the history of one process"""
+    def cfg(name, memo, gen, maxlen=4):
+        p = os.path.join(common.VERIF, "out", "cfg", "SN_%s.cfg" % name)
+        if gen: tlc.write_cfg(p, constants=dict(Custom={"c3", "c9"}, Memoised=memo, MaxLen=maxlen, Gen=True), init="Init", next="Next", constraint="Emit")
+        else: tlc.write_cfg(p, constants=dict(Custom={"c3", "c9"}, Memoised=memo, MaxLen=maxlen, Gen=False), spec="Spec", invariants=["DetectsWriter", "PrefixFree"], view="View")
+        return p
+    c.model_check("Sniffing[registry histories]", "Sniffing", cfg("mc", False, False), workers=4, timeout=300)
+    r = c.model_check("Sniffing[sniff length computed once]", "Sniffing", cfg("memo", True, False), must_hold=False, workers=4, timeout=300)
+    if r.ok: raise tlc.TLCError("Sniffing lost its sensitivity: a sniff length frozen at the first load must miss a longer magic registered later")
+    c.extra["sniffing_sensitivity"] = "sniff length computed once -> %s" % (r.violated,)
+    r = tlc.run("Sniffing", cfg("gen", False, True, maxlen=3 if c.quick else 4), workers=1, timeout=600); c.add_tlc("Sniffing-gen", r)
+    hists = [h for h in tlc.printed_json(r) if any(op == "register" for op, _ in h) and any(op == "load" for op, _ in h)]
+    uniq = sorted({json.dumps(h) for h in hists}); hists = [json.loads(h) for h in uniq]
+    c.extra["sniffing_histories"] = len(hists)
+    n = 60 if c.quick else 1500
+    if len(hists) > n: hists = rng.sample(hists, n)
+    base = common.scratch("c03_sniff")
+    with ThreadPoolExecutor(max_workers=14) as ex:
+        res = list(ex.map(run_sniff, [(base, k, h) for k, h in enumerate(hists)]))
+    shutil.rmtree(base, ignore_errors=True)
+    for h, pbs in zip(hists, res):
+        c.evaluations += 1; c.nontrivial.add("sniff:" + json.dumps(h))
+        for pb in pbs:
+            c.violation({"k": "registry_history", "history": h, "step": pb["step"], "via": pb["via"]},
+                        "C03: in a process with the history %s the file of step %d loaded via %s: %s" % (h, pb["step"], pb["via"], pb["what"]), {})
+
+
 def body(c):
     c.spec_cases_replayed = True
     rng = random.Random(c.seed)
+    sniffing(c, rng)
     path = os.path.join(common.VERIF, "out", "cfg", "PS.cfg")
     tlc.write_cfg(path, init="Init", next="Next", invariants=["DetectConsistent", "TupleWins", "MagicsDistinct"], constraint="Emit")
     r = tlc.run("Persist", path, workers=1, timeout=600); c.add_tlc("Persist[lattice]", r)
